@@ -26,6 +26,41 @@ ENUM_EXPR_QUICK = ("EnumCases(\"Float\", TRUE, FALSE, LeafMapsOver({%s}), <<4>>,
 ENUM_EXPR_THOROUGH = "EnumCases(\"Float\", TRUE, FALSE, AllLeafMaps({<<>>, <<1>>, <<3>>}), <<4>>, FALSE)"
 
 
+def inf_probe(ctx):
+    """Observed, NOT judged: what the code records when a leaf holds +/-inf next to finite values.  The property's
+    quantifier lists NaNs and entirely-NaN leaves; infinities are outside it (see the assumption recorded below)."""
+    import os
+    import warnings
+    import numpy as np
+    from astropy.io import fits
+    from toasty.pyramid import PyramidIO, Pos
+    from toasty.image import Image
+    from toasty.merge import cascade_images, averaging_merger
+    d = ctx.mkdtemp("infprobe")
+    pio = PyramidIO(d, default_format="fits")
+    a = np.full((256, 256), 2.0, dtype=np.float32)
+    a[0, 0] = np.inf
+    a[1, 1] = 7.0
+    b = np.full((256, 256), 3.0, dtype=np.float32)
+    b[5, 5] = -np.inf
+    b[6, 6] = -4.0
+    out = {}
+    with warnings.catch_warnings():
+        warnings.simplefilter("ignore")
+        pio.write_image(Pos(1, 0, 0), Image.from_array(a))
+        pio.write_image(Pos(1, 1, 1), Image.from_array(b))
+        cascade_images(pio, 1, averaging_merger, parallel=1)
+    for name, pos in (("leaf with +inf (finite range 2..7)", Pos(1, 0, 0)), ("leaf with -inf (finite range -4..3)", Pos(1, 1, 1)),
+                      ("root (finite range of the leaves -4..7)", Pos(0, 0, 0))):
+        path = pio.tile_path(pos, makedirs=False)
+        if os.path.exists(path):
+            with fits.open(path) as h:
+                out[name] = dict((k, h[0].header.get(k)) for k in ("DATAMIN", "DATAMAX"))
+        else:
+            out[name] = "absent"
+    return out
+
+
 def run(ctx):
     repo.setup(ctx)
     ctx.rule = ("FITS cases = (data type, start depth 1-2, sparse leaf population, leaf matrices with NaNs incl. entirely-NaN leaves, stale "
@@ -62,6 +97,12 @@ def run(ctx):
     for meta, rec in jobs[:1] + jobs[len(jobs) // 2: len(jobs) // 2 + 3]:
         ctx.sample({"meta": base._plain(meta), "given": [[g["pos"], g["stored"]] for g in rec["given"]][:8],
                     "expected_ranges": [[t["pos"], t["rng"]] for t in rec["final"]][:10]})
-    ctx.assume("leaves are written by toasty (PyramidIO.write_image without an explicit range); leaf values are finite or NaN (no infinities); "
+    ctx.assume("leaves are written by toasty (PyramidIO.write_image without an explicit range, some of them twice via update_image); "
+               "leaf values are finite or NaN: +/-inf pixels are outside the quantifier ('leaf contents with NaNs') and are not judged - the "
+               "code omits the card whose extreme is infinite instead of recording the finite extreme (probe recorded in the evidence); "
                "values are exactly representable in float32, so 'to single-precision rounding' is equality of the float32 values")
     ctx.assume("integer FITS tiles: every stored value (0 included) counts as a data value")
+    try:
+        ctx.note("infinite_pixels_observed_not_judged", inf_probe(ctx))
+    except Exception as e:  # noqa - an observation only
+        ctx.note("infinite_pixels_observed_not_judged", "probe raised %r" % (e,))
